@@ -323,17 +323,17 @@ pub struct Mismatched {
 }
 impl Space for Mismatched {
     fn name(&self) -> String {
-        format!("{} soundness on inconsistent input: section built for names A, symbol table carrying B with B[i] in {{A[i]+\"x\", A[i] minus its last byte, A[i+1], A[i]}} for every choice per symbol (4^5) x nbucket 1..3 x 4 encodings; queries A and B", if self.gnu { "GnuHashTable" } else { "SysVHashTable" })
+        format!("{} soundness on inconsistent input: section built for names A, symbol table carrying B with B[i] in {{A[i]+\"x\", A[i] minus its last byte, A[i+1], A[i], unreadable (st_name beyond the string table / at an unterminated tail)}} for every choice per symbol (5^5) x nbucket 1..3 x 4 encodings; queries A, B and the empty name", if self.gnu { "GnuHashTable" } else { "SysVHashTable" })
     }
     fn size(&self) -> u64 {
-        1024 * 3 * 4
+        3125 * 3 * 4
     }
     fn describe(&self, idx: u64) -> Value {
-        let d = unmix(idx, &[1024, 3, 4]);
-        json!({"relation_per_symbol_base4": format!("{:05}", radix4(d[0])), "nbucket": d[1] + 1, "encoding": ENCS[d[2] as usize].name()})
+        let d = unmix(idx, &[3125, 3, 4]);
+        json!({"relation_per_symbol_base5": format!("{:05}", radix4(d[0])), "nbucket": d[1] + 1, "encoding": ENCS[d[2] as usize].name()})
     }
     fn run(&self, idx: u64, out: &mut Outcome) {
-        let d = unmix(idx, &[1024, 3, 4]);
+        let d = unmix(idx, &[3125, 3, 4]);
         let enc = ENCS[d[2] as usize];
         let a: Vec<Vec<u8>> = vec![b"a".to_vec(), b"ab".to_vec(), b"abc".to_vec(), b"bA".to_vec(), b"memset".to_vec()];
         let built = build_table(self.gnu, enc, &a, 0b11111, 1, d[1] as usize + 1, 1, 5);
@@ -341,9 +341,13 @@ impl Space for Mismatched {
         let mut b_names = built.names.clone();
         let n = b_names.len();
         let mut code = d[0];
+        let mut unreadable: Vec<usize> = Vec::new();
         for i in built.first_hashed..n {
-            let rel = code % 4;
-            code /= 4;
+            let rel = code % 5;
+            code /= 5;
+            if rel == 4 {
+                unreadable.push(i);
+            }
             let orig = built.names[i].clone();
             b_names[i] = match rel {
                 0 => {
@@ -356,11 +360,21 @@ impl Space for Mismatched {
                 _ => orig,
             };
         }
-        let (strtab, offs) = build_strtab(&b_names);
-        let symtab = build_symtab(enc, &offs);
+        let (mut strtab, offs) = build_strtab(&b_names);
+        let mut symtab = build_symtab(enc, &offs);
+        // unreadable names: st_name beyond the table (even symbols) or at a tail without terminator (odd)
+        let tail = strtab.len();
+        strtab.extend_from_slice(b"zz");
+        let symsz = refmodel::layout::layout(refmodel::layout::Kind::Sym, enc.class).size;
+        for i in &unreadable {
+            let v = if i % 2 == 0 { tail as u64 + 7 } else { tail as u64 };
+            refmodel::layout::put(&mut symtab, i * symsz, 4, enc.order, v);
+        }
         let who = if self.gnu { "GnuHashTable::find" } else { "SysVHashTable::find" };
         let mut qs = built.names.clone();
         qs.extend(b_names.iter().cloned());
+        qs.push(Vec::new());
+        qs.push(b"zz".to_vec());
         let mut dig = Fnv::new();
         for q in qs {
             out.transitions += 1;
@@ -370,7 +384,7 @@ impl Space for Mismatched {
                     return;
                 }
                 Ok(Some(Ok(Some((i, same))))) => {
-                    let name_ok = b_names.get(i).map(|x| *x == q).unwrap_or(false);
+                    let name_ok = !unreadable.contains(&i) && b_names.get(i).map(|x| *x == q).unwrap_or(false);
                     if !same || !name_ok {
                         out.violate(
                             format!("unsound:{who}"),
@@ -390,8 +404,8 @@ fn radix4(mut v: u64) -> u64 {
     let mut out = 0;
     let mut m = 1;
     for _ in 0..5 {
-        out += (v % 4) * m;
-        v /= 4;
+        out += (v % 5) * m;
+        v /= 5;
         m *= 10;
     }
     out
